@@ -319,6 +319,7 @@ type extractCfg struct {
 	of      float32
 	http    bool
 	flaky   bool // the origin cuts the body of the first tile-data response short (once)
+	fail500 bool // the origin answers the first tile-data range it is asked for (and every repetition of it) with 500 and delays the others
 	cut     int  // the local source file is truncated by this many bytes
 }
 
@@ -340,6 +341,7 @@ func runExtract(src []byte, minz, maxz int8, bbox string, cfg extractCfg) ([]byt
 	if cfg.http {
 		var mu sync.Mutex
 		cutDone := false
+		failLo := int64(-1)
 		tdo := int64(-1)
 		if h, err := pmtiles.DeserializeHeader(src[:127]); err == nil {
 			tdo = int64(h.TileDataOffset)
@@ -356,7 +358,21 @@ func runExtract(src []byte, minz, maxz int8, bbox string, cfg extractCfg) ([]byt
 					if cfg.flaky && !cutDone && tdo >= 0 && a >= tdo && b > a {
 						cutDone, cutThis = true, true
 					}
+					fail, slow := false, false
+					if cfg.fail500 && tdo >= 0 && a >= tdo {
+						if failLo < 0 {
+							failLo = a
+						}
+						fail, slow = a == failLo, a != failLo
+					}
 					mu.Unlock()
+					if fail {
+						http.Error(w, "origin error", 500)
+						return
+					}
+					if slow {
+						time.Sleep(60 * time.Millisecond)
+					}
 				}
 			}
 			if cutThis {
@@ -484,6 +500,24 @@ func relevantLine(r *core.Rng) string {
 			ivs = append(ivs, iv{lastID + 200, lastID + 201})
 		}
 	}
+	if r.Chance(1, 4) {
+		// the wanted set holds the first and the last tile of a run and nothing in between: both ends inside,
+		// the middle outside (a region the run enters twice)
+		var runs []int
+		for k := range es {
+			if es[k].RunLength >= 3 {
+				runs = append(runs, k)
+			}
+		}
+		if len(runs) > 0 {
+			e := es[runs[r.Intn(len(runs))]]
+			last := e.TileID + uint64(e.RunLength) - 1
+			ivs = []iv{{e.TileID, e.TileID + 1}, {last, last + 1}}
+			if r.Bool() && e.RunLength >= 5 {
+				ivs = []iv{{e.TileID, e.TileID + 2}, {last - 1, last + 1}}
+			}
+		}
+	}
 	return fmt.Sprintf("relevant %d %s D %s", 9+r.Intn(4), fmtIvs(ivs), fmtEntries(es))
 }
 
@@ -550,7 +584,7 @@ func (C07) Gen(r *core.Rng, tier string, emit func(string)) {
 			minz = int8(r.Intn(4))
 		}
 		if r.Bool() {
-			maxz = int8(1 + r.Intn(7))
+			maxz = int8(r.Intn(8)) // 0 included: "only the top of the pyramid" is a request, not "no limit"
 		}
 		bbox := "-"
 		if r.Chance(1, 2) {
@@ -594,9 +628,10 @@ func runReencode(t []string) string {
 }
 
 type extractRun struct {
-	out  []byte
-	recs []recordedRange
-	cfg  extractCfg
+	out    []byte
+	recs   []recordedRange
+	cfg    extractCfg
+	failed bool // the extract reported an error (only kept for fail500 configurations: the requests are still judged)
 }
 
 func runExtractConfigs(t []string, cfgs []extractCfg) ([]extractRun, []byte, string) {
@@ -644,12 +679,16 @@ func runExtractConfigs(t []string, cfgs []extractCfg) ([]extractRun, []byte, str
 	for _, c := range cfgs {
 		out, recs, err := runExtract(src, int8(minz), int8(maxz), bbox, c)
 		if err != nil {
+			if c.fail500 {
+				runs = append(runs, extractRun{nil, recs, c, true})
+				continue
+			}
 			if c.flaky || c.cut > 0 {
 				continue // a failed transfer may fail the extract; a run that reports success is judged like any other
 			}
 			return nil, src, "extract-error " + strings.ReplaceAll(trunc(err.Error(), 80), " ", "_")
 		}
-		runs = append(runs, extractRun{out, recs, c})
+		runs = append(runs, extractRun{out, recs, c, false})
 	}
 	return runs, src, ""
 }
@@ -662,6 +701,25 @@ var c07Cfgs = []extractCfg{{threads: 1}, {threads: 4, of: 0.3}, {threads: 2, of:
 	// outside the property: they are not archives; see DESIGN §9.3 observations.)
 	{threads: 2, of: 0.3, http: true, flaky: true}}
 
+// c07ViaCLI: which extract lines are also run through the binary — one in six, and one in two of those that give
+// a zoom option its boundary value 0 (where "not given" and "zero" must not be confused)
+func c07ViaCLI(line string) bool {
+	if os.Getenv("VERIF_CLI") == "" {
+		return false
+	}
+	h := lineHash(line)
+	if h%6 == 0 {
+		return true
+	}
+	if i := strings.LastIndex(line, " # "); i >= 0 {
+		f := strings.Fields(line[i+3:])
+		if len(f) >= 2 && (f[0] == "0" || f[1] == "0") {
+			return h%2 == 0
+		}
+	}
+	return false
+}
+
 func (C07) RunGo(line string) string {
 	t := strings.Fields(line)
 	switch t[0] {
@@ -673,7 +731,7 @@ func (C07) RunGo(line string) string {
 		return runMergecheck(t)
 	case "extract":
 		cfgs := c07Cfgs
-		if lineHash(line)%6 == 0 && os.Getenv("VERIF_CLI") != "" {
+		if c07ViaCLI(line) {
 			// the same extract through the command-line binary: once with its default threads/overfetch,
 			// once with explicit flags, once from an HTTP source
 			cfgs = append(append([]extractCfg{}, c07Cfgs...), extractCfg{cli: true, threads: 4, of: 0.05}, extractCfg{cli: true, threads: 2, of: 0.3}, extractCfg{cli: true, threads: 3, of: 0, http: true})
@@ -709,7 +767,7 @@ func (C07) Branch(line, goOut string) string {
 		if len(cm) >= 3 && cm[2] != "-" {
 			b = "bbox"
 		}
-		if lineHash(line)%6 == 0 && os.Getenv("VERIF_CLI") != "" {
+		if c07ViaCLI(line) {
 			b += " (also through the command-line binary)"
 		}
 		return "extract " + b
